@@ -263,7 +263,7 @@ impl Prop for C15 {
     }
     fn rule(&self) -> String {
         "every prefix of dictionary words typed through the Probhat layout via a reverse key map computed from the layout file (every 12th word in quick plus every word that occurs more than once in the data, every word in thorough), \
-         plus the half-word wrapped in 7 punctuation/quote wrappings, plus every fourth word with a punctuation mark inside it (the full stop from the number pad), each in 1 (quick, rotating) / 4 (thorough) of 11 contexts over subsets of \
+         plus the half-word wrapped in 7 punctuation/quote wrappings, plus every fourth word with a mark inside it (every ASCII punctuation character, danda, joiners and currency/maths signs the layout can type, in rotation; the full stop from the number pad), each in 1 (quick, rotating) / 4 (thorough) of 11 contexts over subsets of \
          {traditional joining, smart quotes, English, ANSI} plus old vowel-sign order (keys in typewriter order) and the auto-vowel/chandra/reph helpers; every context has a twin with suggestions off that receives the same keys and defines the composed text; \
          the list returned after every key is judged. distinct_nontrivial = distinct (composed text, options) pairs whose list was judged."
             .into()
@@ -293,6 +293,9 @@ impl Prop for C15 {
         let rev = lo.reverse();
         // the number-pad decimal key (all contexts have the number-pad option on)
         let dot: Option<FKey> = keys().iter().find(|k| k.name == "VC_KP_DECIMAL").filter(|k| lo.value(k.code, 0, true) == Some(".")).map(|k| (k.code, 0u8, '.'));
+        let mut marks: Vec<(char, FKey)> = rev.iter().filter(|(c, _)| c.is_ascii_punctuation() || matches!(**c, '।' | '॥' | '\u{200C}' | '\u{200D}' | '৳' | '÷' | '×')).map(|(c, k)| (*c, *k)).collect();
+        marks.sort();
+        out.max("marks_typed_inside_words", marks.len() as u64);
         let root = env.root("c15");
         fresh_root(&root);
         let sessions: Vec<(Sess, Sess)> = match specs().into_iter().map(|s| Ok((Sess::new(s, &root)?, Sess::new(CfgSpec::new(s.lay, s.opts & !O_FSUGG), &root)?))).collect::<Result<_, Panic>>() {
@@ -341,8 +344,8 @@ impl Prop for C15 {
                 let cs: Vec<char> = w.chars().collect();
                 if cs.len() >= 2 {
                     let cut = 1 + (n / 4) % (cs.len() - 1);
-                    let p = ['.', '-', ',', '.', '\''][(n / 8) % 5];
-                    let pk = if p == '.' { dot } else { rev.get(&p).copied() };
+                    // every mark the layout can type (ASCII punctuation, danda, ZWNJ ...), the number-pad full stop every fourth time
+                    let (p, pk) = if (n / 8) % 4 == 0 { ('.', dot) } else { let (c, k) = marks[(n / 8) % marks.len()]; (c, Some(k)) };
                     let head: String = cs[..cut].iter().collect();
                     let tail: String = cs[cut..cs.len().min(cut + 2)].iter().collect();
                     if let (Some(a), Some(pk), Some(b)) = (keys_for(&rev, &head), pk, keys_for(&rev, &tail)) {
